@@ -67,7 +67,7 @@ def norm(p):
 
 
 # ------------------------------------------------------------------ rendering
-SIMPLE = {"lit", "var", "call", "list", "set", "map", "obj", "method", "member", "compr", "log"}
+SIMPLE = {"lit", "var", "call", "list", "set", "map", "obj", "method", "member", "compr", "compr2", "log", "index"}
 
 
 def paren(s):
@@ -141,10 +141,10 @@ def items_src(items):
     return ", ".join(("..." + src(i["a"][0])) if i["n"] == "spread" else expr(i["a"][0]) for i in items)
 
 
-def what_src(what, coll):
-    if what and (coll["n"] == "map" or what != "values"):
-        return what + " "
-    return ""
+def what_src(what, default):
+    """`for` defaults to values (parser), comprehensions to entries for maps:
+    the word is printed unless it is that default"""
+    return "" if what == default else what + " "
 
 
 def src(n):
@@ -174,7 +174,7 @@ def src(n):
     if t == "for":
         ids, what, coll, body = a
         v = ids[0] if len(ids) == 1 else "[" + ", ".join(ids) + "]"
-        return f"for {v} in {what_src(what, coll)}{expr(coll)} {body_src(body)}"
+        return f"for {v} in {what_src(what, 'values')}{expr(coll)} {body_src(body)}"
     if t == "while":
         body = a[1]
         return f"while {orexpr(a[0])} " + (block_src(body) if body["n"] == "block" else "do " + src(body) + " end")
@@ -206,7 +206,7 @@ def src(n):
         return f"fn({params_src(a[0])}) {body_src(a[1])}"
     if t == "call":
         f = a[0]
-        callee = src(f) if f["n"] in ("var", "call", "member") else paren(src(f))
+        callee = src(f) if f["n"] in ("var", "call", "member", "index") else paren(src(f))
         return f"{callee}({args_src(a[1])})"
     if t == "pipe":
         f = a[0]
@@ -216,9 +216,19 @@ def src(n):
         return f"{operand(a[0])}->{n['s']}({args_src(a[1])})"
     if t == "member":
         return f"{operand(a[0])}->{n['s']}"
+    if t == "index":
+        c = a[0]
+        base = src(c) if c["n"] in ("var", "call", "index", "member", "list") else paren(src(c))
+        return f"{base}[{expr(a[1])}]"
+    if t == "compr2":
+        kind, val, id1, l1, id2, l2, cond = a
+        sep = " for " if n["s"] == "product" else " also for "
+        tail = (f" for {id1} in {orexpr(l1)}{sep}{id2} in {orexpr(l2)}"
+                + ("" if cond["n"] == "none" else " if " + orexpr(cond)))
+        return ("[" + expr(val) + tail + "]") if kind == "list" else ("<< " + expr(val) + tail + " >>")
     if t == "compr":
         val, ident, what, coll, cond = a
-        tail = f" for {ident} in {what_src(what, coll)}{orexpr(coll)}" + ("" if cond["n"] == "none" else " if " + orexpr(cond))
+        tail = f" for {ident} in {what_src(what, '')}{orexpr(coll)}" + ("" if cond["n"] == "none" else " if " + orexpr(cond))
         if n["s"] == "list":
             return "[" + expr(val) + tail + "]"
         if n["s"] == "set":
